@@ -189,6 +189,8 @@ func ExtractValue(v reflect.Value, extractor ValueExtractor) {
 
 var _timeType = reflect.TypeOf(time.Time{})
 
+var _bytesType = reflect.TypeOf([]byte(nil))
+
 //TypeMapOf type
 func TypeMapOf(typ reflect.Type) map[string]reflect.Type {
 	typMap := make(map[string]reflect.Type)
@@ -205,9 +207,10 @@ func FetchType(typ reflect.Type, typMap map[string]reflect.Type) {
 	}
 
 	if typ.Kind() == reflect.Array || typ.Kind() == reflect.Slice {
-		if typ.Elem().Kind() != reflect.Uint8 || typ.Name() != "" {
-			// a list type, under its Go name and under its list type name (the
-			// unnamed []byte is binary data; a named byte-slice type is a list)
+		if typ != _bytesType {
+			// a list type, under its Go name and under its list type name (only
+			// []byte itself is binary data; a named byte-slice type and a slice of
+			// a named uint8 type are lists, as the encoder writes them)
 			name := TypeName(typ)
 			if old, ok := typMap[name]; ok && old == typ {
 				// already fetched: a self-referential list type (type T []T) must not be walked again
